@@ -2251,6 +2251,10 @@ func ConcreteNextHopProto(e *aft.Afts_NextHop) (*aftpb.Afts_NextHopKey, error) {
 	}, nhproto); err != nil {
 		return nil, fmt.Errorf("cannot marshal next-hop index %d, %v", e.GetIndex(), err)
 	}
+	// protomap does not rebuild boolean leaves, so copy pop-top-label explicitly.
+	if e.PopTopLabel != nil {
+		nhproto.PopTopLabel = &wpb.BoolValue{Value: *e.PopTopLabel}
+	}
 	return &aftpb.Afts_NextHopKey{
 		Index:   *e.Index,
 		NextHop: nhproto,
